@@ -4,7 +4,7 @@
    prodl = product of a list; `s` is the stream of generator outputs the code consumes (any stream). *)
 From Coq Require Import ZArith List Znumtheory.
 From C09 Require Import Model Model2 ProofsAlg ProofsDiv ProofsSplit ProofsIrr ProofsCZ ProofsReq ProofsSweepIrr ProofsSweepSqr ProofsSweepOrd
-  ProofsPow ProofsOrd ProofsRep ProofsSqr ProofsRep2 Model3 ProofsM3 ProofsFactors ProofsLagrange ProofsIrrSound.
+  ProofsPow ProofsOrd ProofsRep ProofsSqr ProofsRep2 Model3 ProofsM3 ProofsFactors ProofsLagrange ProofsIrrSound ProofsRoots ProofsParts.
 Import ListNotations.
 Local Open Scope Z_scope.
 
@@ -439,3 +439,60 @@ Proof. exact random_prim_root_correct_thm. Qed.
 Print Assumptions C09_random_prim_root_returns_irreducible_and_generator.
 Example C09_random_irreducible_correct_example : prime 2 /\ random_irreducible 2 3 2 [1; 0; 1; 1; 0; 1; 1; 1] = Some ([1; 1; 0; 1], [1; 1]).
 Proof. pose proof random_irreducible_example as H. tauto. Qed.
+
+(* ROOT COUNTING in the quotient field F_p[X]/(F), F irreducible: a polynomial of degree m over it has at most m roots; at most p^i residues
+   satisfy a^(p^i) = a (i >= 1); hence an irreducible g dividing X^(p^d) - X (d >= 1) has degree <= d *)
+Theorem C09_roots_bound_in_quotient_field : Roots_bound_stmt.
+Proof. exact roots_bound_thm. Qed.
+Print Assumptions C09_roots_bound_in_quotient_field.
+Theorem C09_frobenius_fixed_points_bound : Fixed_points_bound_stmt.
+Proof. exact fixed_points_bound_thm. Qed.
+Print Assumptions C09_frobenius_fixed_points_bound.
+Theorem C09_irreducible_divisor_of_Xq_minus_X_has_small_degree : Irr_divides_Xq_degree_stmt.
+Proof. exact irr_divides_Xq_degree_thm. Qed.
+Print Assumptions C09_irreducible_divisor_of_Xq_minus_X_has_small_degree.
+(* "the irreducibility test answers true EXACTLY for irreducible polynomials": is_irreducible (givpoly1factor.inl), EVERY prime p, EVERY degree,
+   every canonical P:  is_irreducible P = true <-> P is irreducible (definition).  Supersedes the sweep C09_irreducibility_tests_decide_partial
+   for is_irreducible (the sweep remains the only statement about is_irreducible2). *)
+Theorem C09_is_irreducible_complete : Is_irreducible_complete_stmt.
+Proof. exact is_irreducible_complete_thm. Qed.
+Print Assumptions C09_is_irreducible_complete.
+Theorem C09_is_irreducible_decides_irreducibility : Is_irreducible_decides_stmt.
+Proof. exact is_irreducible_decides_thm. Qed.
+Print Assumptions C09_is_irreducible_decides_irreducibility.
+(* the distinct-degree fact, proved: one round of the DDF loop on P (no irreducible divisor of degree < d left) yields a G1 that is, up to a
+   constant, a product of irreducibles of degree d, and it contains every irreducible divisor of degree d of P; hence ddf_hyp holds for every
+   square-free f, and DistinctDegreeFactor of a square-free polynomial returns irreducible, pairwise non-associate factors: every stream *)
+Theorem C09_ddf_round_isolates_degree_d : Ddf_round_stmt.
+Proof. exact ddf_round_thm. Qed.
+Print Assumptions C09_ddf_round_isolates_degree_d.
+Theorem C09_ddf_facts_hold_for_squarefree_input : Ddf_hyp_squarefree_stmt.
+Proof. exact ddf_hyp_squarefree_thm. Qed.
+Print Assumptions C09_ddf_facts_hold_for_squarefree_input.
+Theorem C09_ddf_of_squarefree_returns_irreducible_non_associate_factors : Ddf_irreducible_squarefree_stmt.
+Proof. exact ddf_irreducible_squarefree_thm. Qed.
+Print Assumptions C09_ddf_of_squarefree_returns_irreducible_non_associate_factors.
+(* CZfactor (MOD = p): every returned factor is irreducible, given only that the parts of the square-free decomposition are square-free *)
+Theorem C09_czfactor_factors_irreducible_given_squarefree_parts : Czfactor_rep_irreducible_squarefree_stmt.
+Proof. exact czfactor_rep_irreducible_squarefree_thm. Qed.
+Print Assumptions C09_czfactor_factors_irreducible_given_squarefree_parts.
+
+(* "square-free decomposition multiplies back to the input up to a constant WITH PAIRWISE COPRIME SQUARE-FREE PARTS": the second half, every prime,
+   every canonical non-zero P, Nfact >= deg P (with C09_sqrfree_multiplies_back the whole sentence is a theorem; the sweep
+   C09_sqrfree_repaired_multiplies_back_partial is superseded).  W0 = A / gcd(A,A') is square-free; the parts of the loop multiply to it;
+   they share no irreducible with the p-th power left over; induction over the recursion on p-th roots. *)
+Theorem C09_sqrfree_parts_squarefree_and_pairwise_coprime : Sqrfree_rep_parts_stmt.
+Proof. exact sqrfree_rep_parts_thm. Qed.
+Print Assumptions C09_sqrfree_parts_squarefree_and_pairwise_coprime.
+Theorem C09_radical_cofactor_is_squarefree : W0_squarefree_stmt.
+Proof. exact W0_squarefree_thm. Qed.
+Print Assumptions C09_radical_cofactor_is_squarefree.
+(* THE FACTORISATION SENTENCE OF THE PROPERTY, UNCONDITIONAL (prime fields GF(p), MOD = p as every public call form passes, every canonical
+   non-zero P, every stream of random choices on which CZfactor returns): the returned factors are canonical and IRREDUCIBLE (definition),
+   PAIRWISE NON-ASSOCIATE, as many multiplicities as factors, all >= 1, and prod_i Lf_i^Le_i = P up to a non-zero constant -
+   "no factor is lost or invented, whatever the multiplicities". *)
+Theorem C09_czfactor_returns_the_factorisation : Czfactor_rep_total_stmt.
+Proof. exact czfactor_rep_total_thm. Qed.
+Print Assumptions C09_czfactor_returns_the_factorisation.
+Example C09_czfactor_total_example : czfactor_rep 3 [0; 0; 0; 2; 2] 3 [1; 2; 1; 1; 2; 0; 1] = Some ([[1; 1]; [0; 1]], [1; 3], [1; 2; 1; 1; 2; 0; 1]).
+Proof. vm_compute. reflexivity. Qed.
